@@ -261,6 +261,8 @@ def run(pid, tier, seed, args, t0):
     standins = []
     for module, sid in prop.get("standins", []):
         standins.append(run_standin(module, sid, tier, seed))
+    # conformance of the ASSUMED library contracts with the installed libraries (a failure = checker error)
+    conformance = run_standin("rt_conformance", pid, tier, seed)
     standin_fail = [(s["module"], f) for s in standins for f in s.get("failures", [])]
     standin_err = [s for s in standins if s.get("error")]
 
@@ -376,6 +378,8 @@ def run(pid, tier, seed, args, t0):
                      "wall_s": s.get("wall_s"), "note": "bounded run-time check of the same property on the real "
                      "code; NOT counted in discharged"} for s in standins],
         "samples": samples,
+        "assumed_contract_conformance": {"evaluations": conformance.get("evaluations", 0), "tags": conformance.get("tags", []),
+                                         "failures": conformance.get("failures", []), "error": conformance.get("error")},
         "repo_files_sha256": d["repo"].file_sha,
         "explanation": prop.get("text", ""),
     }
@@ -411,6 +415,10 @@ def run(pid, tier, seed, args, t0):
             print("   %-9s %6.2fs %s" % (o["status"], o["time"], n))
     if disagree:
         print("CHECKER-ERROR solver disagreement on: %s" % disagree)
+        return 3
+    if conformance.get("failures") or conformance.get("error"):
+        print("CHECKER-ERROR an assumed library contract does not hold for the installed library: %s" % (
+            conformance.get("failures") or conformance.get("error")))
         return 3
     if d["vacuous"]:
         print("CHECKER-ERROR vacuous hypotheses in: %s" % d["vacuous"])
